@@ -443,6 +443,13 @@ pub fn item_bytes(peer: &mut RawPeer, name: &str, t: u32, state: TargetState, rn
             data(t, b"", false, None, &mut b);
             (Tolerate, false)
         }
+        "legal-ping-ack-with-unknown-flags" => {
+            // an acknowledgement is an acknowledgement whatever undefined flag bits accompany it (RFC 9113 4.1:
+            // undefined flags are ignored); it answers nothing of ours, h2 tolerates unsolicited acknowledgements,
+            // and it must certainly not be acknowledged in turn
+            raw_frame(T_PING, F_ACK | (rng.byte() & 0xfe), 0, &rng.bytes(8), &mut b);
+            (Tolerate, false)
+        }
         "legal-unknown-flags-on-ping" => {
             raw_frame(T_PING, 0xfe & !F_ACK, 0, &[9; 8], &mut b);
             (Tolerate, false)
@@ -574,6 +581,7 @@ pub const ITEMS: &[&str] = &[
     "legal-padded-data",
     "legal-empty-data",
     "legal-unknown-flags-on-ping",
+    "legal-ping-ack-with-unknown-flags",
     "legal-window-update-on-closed",
     "legal-rst-on-closed",
     "legal-data-in-flight-after-e-reset",
